@@ -118,6 +118,15 @@ func runWorld(name string, seed uint64, replay []int32) *Result {
 	}
 	k := sim.NewKernel(tape)
 	k.SetTrace(envOn("VERIF_TRACE"))
+	if os.Getenv("VERIF_LOG") == "2" {
+		k.DumpNet = func(conn int, to string, dir int, data []byte) {
+			s := string(data)
+			if len(s) > 160 {
+				s = s[:80] + "..." + s[len(s)-80:]
+			}
+			fmt.Fprintf(os.Stderr, "NET %v conn%d to=%s dir=%d %dB %q\n", k.Now(), conn, to, dir, len(data), s)
+		}
+	}
 	if !envOn("VERIF_LOG") {
 		log.SetOutput(io.Discard)
 	} else {
@@ -181,4 +190,3 @@ func runWorld(name string, seed uint64, replay []int32) *Result {
 	}
 	return res
 }
-
